@@ -14,6 +14,7 @@ GENS = [dict(max_n=4, nbest_max=6), dict(max_n=4, multi=True, nbest_max=8), dict
 def extra(ctx):
     import glue_checks
     glue_checks.real_grammar_suite(ctx, {'valid', 'score'}, ctx.budget(100, 1000), nbest=True)
+    search_checks.float_order_suite(ctx, ctx.budget(1500, 15000))
 
 
 def run(ctx):
